@@ -191,6 +191,14 @@ pub fn run(ctx: &Ctx) -> i32 {
     let mut per_kind = Vec::new();
     let mut flags_total: BTreeMap<&'static str, u64> = BTreeMap::new();
     for kind in &kinds {
+        if per_kind.len() % 11 == 3 {
+            let pre = vec![Op::Burst(100, 12), Op::Item(2)];
+            let post = vec![Op::Item(5)];
+            let a = run_case(kind, &pre, &post, None);
+            let f = run_case(kind, &[], &post, None);
+            ctx.sample(json!({"sketcher": kind.name, "pre": ops_json(&pre), "then": "reset", "post": ops_json(&post), "equal_to_fresh": a == f,
+                "observation_head": a.as_ref().ok().map(|v| v.iter().take(4).map(|w| format!("{:#x}", w)).collect::<Vec<_>>())}));
+        }
         let o = check_kind(kind, pre_depth, post_depth);
         tot_execs += o.execs;
         tot_distinct += o.distinct_fresh;
